@@ -126,10 +126,11 @@ def run_cases(v, wd, cases, tag, compare=True):
         v.cov['broken_detail'] = log[-3000:]
         return False
     got, want, idx = [], [], []
-    tot = {'calls': 0, 'queries': 0, 'runs': 0, 'query_errors': 0, 'reruns': 0, 'skipped': 0, 'query_kinds': {}}
+    tot = {'calls': 0, 'queries': 0, 'runs': 0, 'query_errors': 0, 'reruns': 0, 'skipped': 0,
+           'raised_and_left_state_perturbed': 0, 'query_kinds': {}}
     for i, (c, r) in enumerate(zip(cases, results)):
         st = r.get('stats', {})
-        for k in ('calls', 'queries', 'runs', 'query_errors', 'reruns'):
+        for k in ('calls', 'queries', 'runs', 'query_errors', 'reruns', 'raised_and_left_state_perturbed'):
             tot[k] += st.get(k, 0)
         for k, n in st.get('query_kinds', {}).items():
             tot['query_kinds'][k] = tot['query_kinds'].get(k, 0) + n
